@@ -69,7 +69,8 @@ func genLocal(r *sim.Rand) string {
 	plain := "abcdefghijklmnopqrstuvwxyz0123456789"
 	atext := "!#$%&'*+-/=?^_`{|}~"
 	special := []string{" ", "<", ">", "@", ",", ";", ":", "\\", "\"", "(", ")", "[", "]", "..", "\t"}
-	uni := []string{"ü", "é", "ж", "日本", "ñ"}
+	// (incl. compatibility characters that a normalisation would turn into ASCII specials)
+	uni := []string{"ü", "é", "ж", "日本", "ñ", "ｕｓｅｒ", "＠", "＞", "．", "①", "\u3000", "․", "ﬁ", "e\u0301"}
 	var b strings.Builder
 	n := 1 + r.Intn(10)
 	kind := r.Intn(6)
@@ -91,7 +92,9 @@ func genLocal(r *sim.Rand) string {
 	if kind == 5 {
 		s = sim.Pick(r, []string{"a b", "a@b", "<x>", "x> SIZE=1", "x@y> BODY=8BITMIME <z", ".lead", "trail.", "a\"b", "a\\b", "rcpt,other", "a;b", "a:b", " lead", "trail ", "user+tag", "\"", "\\", "sales%emea", "100%", "%s", "a%d%v",
 			// local parts that need quoting AND hold non-ASCII characters
-			"jürgen müller", "š b", "名前 太郎", "ü;ö", "é(x)"})
+			"jürgen müller", "š b", "名前 太郎", "ü;ö", "é(x)",
+			// fullwidth look-alikes of the characters that end a path
+			"victim＠example.net＞\u3000NOTIFY=NEVER", "ｕｓｅｒ", "a．b", "x＞＜y"})
 	}
 	return s
 }
@@ -148,12 +151,14 @@ func (p *c05) Gen(seed uint64, i int, tier string) (any, bool) {
 	if r.Chance(1, 3) {
 		sc.Client.DSN = true
 		if r.Chance(1, 2) {
-			sc.Client.DSNRet = sim.Pick(r, []string{"FULL", "HDRS"})
+			// (values as they come out of a configuration file: whatever the option accepts must
+			// be a RET value on the wire, whatever it refuses never gets there)
+			sc.Client.DSNRet = sim.Pick(r, []string{"FULL", "HDRS", "FULL", "HDRS", " FULL", "FULL ", "HDRS\r\n", "\r\nFULL", "\tHDRS", "FULL\r\nRSET", "full", "HDRS BODY=8BITMIME", ""})
 		}
 		if r.Chance(1, 2) {
 			// (NEVER together with another value must be refused when the option is given,
 			// wherever in the list it stands)
-			sc.Client.DSNNotify = sim.Pick(r, [][]string{{"SUCCESS"}, {"FAILURE", "DELAY"}, {"NEVER"}, {"SUCCESS", "FAILURE", "DELAY"}, {"SUCCESS", "NEVER"}, {"NEVER", "DELAY"}, {"FAILURE", "DELAY", "NEVER"}})
+			sc.Client.DSNNotify = sim.Pick(r, [][]string{{"SUCCESS"}, {"FAILURE", "DELAY"}, {"NEVER"}, {"SUCCESS", "FAILURE", "DELAY"}, {"SUCCESS", "NEVER"}, {"NEVER", "DELAY"}, {"FAILURE", "DELAY", "NEVER"}, {"SUCCESS "}, {"NEVER\r\n"}, {"FAILURE", " DELAY"}, {"SUCCESS ORCPT=rfc822;x@y.example"}, {"success"}})
 		}
 	}
 	if r.Chance(1, 3) {
@@ -509,7 +514,7 @@ func (p *c05) Shrink(scAny any) []any {
 
 func (p *c05) Info() PropInfo {
 	return PropInfo{
-		Rule: "seeded search: addresses reach the Msg through the plain setters, the *Format setters, or the plain setters on a Msg that carried another mail and was Reset(); sender, optional envelope sender, 1..3 To, 0..1 Cc, 0..1 Bcc addresses generated by meaning (local part: letters/digits, atext specials, the specials blank < > @ , ; : \\ \" ( ) [ ] .. TAB, UTF-8, leading/trailing/double dots, hand-picked smuggling attempts such as 'x> SIZE=1'; domain: plain, IDN, address literal; optional display names needing quoting or RFC 2047) and written out with correct RFC 5322 quoting through From/EnvelopeFrom/AddTo/AddCc/AddBcc; HELO names incl. blanks, CR/LF, UTF-8; credentials with blanks, CR/LF, = and ,; DSN option combinations; occasionally a refused MAIL/RCPT; every fifth run drives the smtp package directly: 3..10 calls of Hello/Mail/Rcpt/Verify/Noop/Reset/Data with arguments that carry unique markers, some with CR/LF, blanks or parameter injections — a refused argument's marker must never reach the wire, in that call or any later one; non-trivial = the dialogue got past the greeting; distinct = distinct (address kinds, HELO name, auth type, DSN options, mailboxes)",
+		Rule: "seeded search: addresses reach the Msg through the plain setters, the *Format setters, or the plain setters on a Msg that carried another mail and was Reset(); sender, optional envelope sender, 1..3 To, 0..1 Cc, 0..1 Bcc addresses generated by meaning (local part: letters/digits, atext specials, the specials blank < > @ , ; : \\ \" ( ) [ ] .. TAB, UTF-8 incl. fullwidth and other compatibility characters and combining marks, leading/trailing/double dots, hand-picked smuggling attempts such as 'x> SIZE=1'; domain: plain, IDN, address literal; optional display names needing quoting or RFC 2047) and written out with correct RFC 5322 quoting through From/EnvelopeFrom/AddTo/AddCc/AddBcc; HELO names incl. blanks, CR/LF, UTF-8; credentials with blanks, CR/LF, = and ,; DSN option combinations incl. values with surrounding blanks, CR/LF, TAB, other case or a smuggled parameter; occasionally a refused MAIL/RCPT; every fifth run drives the smtp package directly: 3..10 calls of Hello/Mail/Rcpt/Verify/Noop/Reset/Data with arguments that carry unique markers, some with CR/LF, blanks or parameter injections — a refused argument's marker must never reach the wire, in that call or any later one; non-trivial = the dialogue got past the greeting; distinct = distinct (address kinds, HELO name, auth type, DSN options, mailboxes)",
 		Assumptions: []string{"'the mailbox the caller put on the message' is the (local part, domain) pair the address was generated from; its textual form is produced by net/mail's Address.String, independent of go-mail",
 			"an address the setter refuses is simply not part of the message (counted, not judged)",
 			"SMTPUTF8 and 8BITMIME are always advertised here, so non-ASCII paths are legal on the wire (advertising is C04's subject)"},
